@@ -46,6 +46,10 @@ func runC18(c *Checker) {
 	// the ticker's reset/stop protocol (close quit, wait for the goroutine, restart) is only free of
 	// self-deadlock if the goroutine can always see quit: its shape rules (TICK, as C13) belong here
 	ruleTICK(c)
+	// a mutex that a function leaves locked on one of its exits (explicit unlocks instead of a
+	// deferred one, an early return added later) wedges every goroutine that needs it next - the
+	// send loop, the receive loop and Close alike (LOCKBAL, as C05, here for package gbn)
+	ruleLOCKBAL(c, targetGBN)
 	w := c.w
 	scope := map[*types.Named]bool{}
 	for _, n := range raceScopeTypes {
